@@ -1,6 +1,10 @@
 package main
 
-import "fmt"
+import (
+	"fmt"
+	"strconv"
+	"strings"
+)
 
 // The implementation oracle: property C18 restated on what the harness did
 // (calls started, contexts cancelled, stanzas written to the session) and what
@@ -21,12 +25,13 @@ type ocall struct {
 	intact                      bool   // no unavailable presence for the address since the call started
 }
 
-func runOracle(tr []Label, cbPres, cbInv []int, invVariants []int) []verdict {
+func runOracle(tr []Label, cbPres, cbInv []int, died bool) []verdict {
 	var out []verdict
 	fail := func(k, w string) { out = append(out, verdict{k, w}) }
 	calls := map[int]*ocall{}
 	var tracked, member, everJoin, leaveErr [nAddr]bool
 	availWhileTracked := [nAddr]int{}
+	badWhileTracked := [nAddr]int{}
 	kindOf := func(c *ocall) string {
 		if c.join {
 			return "join"
@@ -92,6 +97,26 @@ func runOracle(tr []Label, cbPres, cbInv []int, invVariants []int) []verdict {
 					}
 				}
 				tracked[l.A] = false
+			case "bad":
+				// a presence whose payload does not decode. From an address no join
+				// was ever requested for it must be ignored like any other (checked
+				// below through the callback log and the Serve loop); from any other
+				// address the property does not say what it is worth: it may count as
+				// the room's presence or not.
+				if tracked[l.A] {
+					badWhileTracked[l.A]++
+				}
+				if everJoin[l.A] {
+					for _, c := range calls {
+						if c.a == l.A && !c.returned {
+							if c.join {
+								c.selfSeen = true
+							} else {
+								c.unavSeen = true
+							}
+						}
+					}
+				}
 			case "err":
 				if c := calls[l.K]; c != nil && !c.returned && c.pushed && !c.errSeen {
 					c.errSeen = true
@@ -140,6 +165,9 @@ func runOracle(tr []Label, cbPres, cbInv []int, invVariants []int) []verdict {
 		}
 	}
 	for k, c := range calls {
+		if died {
+			break // the history ends where the Serve loop ended: nothing is owed any more
+		}
 		if !c.returned {
 			if c.cancelled {
 				fail("C18/"+kindOf(c)+"/cancel-ignored", fmt.Sprintf("call %d did not return after its context was cancelled", k))
@@ -165,30 +193,86 @@ func runOracle(tr []Label, cbPres, cbInv []int, invVariants []int) []verdict {
 		}
 		cnt[a]++
 	}
+	// one available presence is handed to one pending join or reported once, not both
+	joinOK := [nAddr]int{}
+	for _, c := range calls {
+		if c.join && c.returned && c.outcome == "success" {
+			joinOK[c.a]++
+		}
+	}
+	for a := range cnt {
+		if cnt[a] <= availWhileTracked[a] && cnt[a]+joinOK[a] > availWhileTracked[a]+badWhileTracked[a] {
+			fail("C18/presence/handled-twice", "an available presence both completed a join and was reported to the user presence callback (or was reported twice)")
+		}
+	}
 	for a := range cnt {
 		if cnt[a] > availWhileTracked[a] {
 			fail("C18/presence/callback-without-presence", "more user presence callbacks than available presences delivered for a tracked address")
 		}
 	}
-	// each invitation exactly once, in order
+	// the Serve loop must survive everything the property calls ignorable
+	if died {
+		last := Label{}
+		for _, l := range tr {
+			if l.T == "deliver" {
+				last = l
+			}
+		}
+		switch {
+		case (last.O == "bad" || last.O == "avail" || last.O == "unavail") && !everJoin[last.A]:
+			fail("C18/presence/unjoined-room-not-ignored", fmt.Sprintf("a presence from %s, for which no join was ever requested, was not ignored: its handling ended the Serve loop (payload kind %q)", addrs[last.A], last.O))
+		case last.O == "bad":
+			// undecodable payload from a room that is or was joined: outside the property
+		default:
+			fail("C18/serve/ended", fmt.Sprintf("the Serve loop ended while handling a stanza (%s)", last.O))
+		}
+	}
+	// each invite element of each delivered message exactly once, in order
+	type inv struct {
+		variant int
+		multi   bool // its message carries several muc#user payloads
+	}
+	sent := map[int]inv{}
+	var order []int
+	for _, l := range tr {
+		if l.T != "deliver" || l.O != "msg" {
+			continue
+		}
+		userx := 0
+		for _, c := range l.C {
+			if c == "u" || strings.HasPrefix(c, "i") {
+				userx++
+			}
+		}
+		for _, c := range l.C {
+			if strings.HasPrefix(c, "i") {
+				n, _ := strconv.Atoi(c[1:])
+				sent[n] = inv{l.V, userx > 1}
+				order = append(order, n)
+			}
+		}
+	}
 	seen := map[int]int{}
 	for _, i := range cbInv {
 		seen[i]++
 	}
-	for i, v := range invVariants {
+	for _, i := range order {
+		v := sent[i]
 		switch {
-		case seen[i] == 0 && v&1 == 1:
+		case seen[i] != 1 && v.multi:
+			fail("C18/invite/several-muc-user-payloads", fmt.Sprintf("a message with several muc#user payloads: its invitation was delivered to HandleInvite %d times (the multiplexer runs the handler once per payload and every run decodes the whole message)", seen[i]))
+		case seen[i] == 0 && v.variant&1 == 1:
 			fail("C18/invite/untyped-message-not-delivered", "a mediated invitation carried by a message without a type attribute (the form XEP-0045 shows) was not delivered to HandleInvite")
 		case seen[i] == 0:
 			fail("C18/invite/not-delivered", "a mediated invitation was not delivered to HandleInvite")
 		case seen[i] > 1:
-			fail("C18/invite/duplicated", "a mediated invitation was delivered to HandleInvite more than once")
+			fail("C18/invite/duplicated", fmt.Sprintf("a mediated invitation was delivered to HandleInvite %d times", seen[i]))
 		}
 	}
 	if len(out) == 0 {
 		last := -1
 		for _, i := range cbInv {
-			if i < 0 || i >= len(invVariants) {
+			if _, ok := sent[i]; !ok {
 				fail("C18/invite/spurious", "HandleInvite ran for something that is not one of the invitations sent")
 			} else if i < last {
 				fail("C18/invite/reordered", "invitations were delivered out of order")
